@@ -5,8 +5,9 @@
 
    Abstraction of machine U (scalars only): alpha is the pair (an, ad) -- RNorm is abstracted by what it guarantees (positive
    denominator, non-negative numerator, REq to its argument); of the two baselines only HOW OFTEN each has been advanced is kept
-   (cB = Len(seenB), cWB = Len(seenWB)); the values (vb, vwb, ret: exact rational EMA arithmetic, EmaExact / RetExact) stay
-   with TLC -- see the note in harness/props/unbounded.py on why the EMA closed form was not lifted.
+   (cB = Len(seenB), cWB = Len(seenWB)); the values (vb, vwb, ret: exact rational EMA arithmetic) are not kept
+   here -- the closed form of the EMA recurrence (EmaExact) is proved for any number of calls in EmaClosed_proofs.tla (TLAPS);
+   RetExact (the convex combination) and the Welford machine W stay with TLC.
    The steps contain no quantifier over an infinite set, so MC_Stats_eq.tla can check with TLC that every step of machine U of
    Stats.tla is a step of this machine under the refinement mapping.
 
